@@ -74,6 +74,61 @@ def programs(tier):
     return out
 
 
+def generated(count, seed):
+    """i18n programs from a small grammar (deterministic in ``seed``): nesting of domain/context/target
+    wrappers (also the same value twice, also on the translated element itself), translated elements with
+    implicit or explicit ids, 0-2 named children (plain, under a condition, with omitted tag, themselves
+    translated), translated attributes (static / interpolated / with ids), all inside optional repeat."""
+    import random
+    rnd = random.Random(7000 + seed)
+    out = []
+    for n in range(count):
+        vars_ = [['v', 'int', 0], ['cv', 'bool', 0], ['ov', 'bool', 1], ['seq', 'lenN', 1]]
+
+        def named(k):
+            kind = rnd.choice(['plain', 'cond', 'omit', 'translated', 'interp'])
+            name = 'n%d' % k
+            if kind == 'plain':
+                return el('b', 'bold', i18n_name=name)
+            if kind == 'cond':
+                return el('b', 'maybe', i18n_name=name, condition=py('cv'))
+            if kind == 'omit':
+                return el('i', 'bare', i18n_name=name, omit=py('ov'))
+            if kind == 'translated':
+                return el('em', 'inner  text', i18n_name=name, i18n_translate=rnd.choice(['', 'inner-id']))
+            return el('b', I('v'), ' <', i18n_name=name)
+
+        def translated(depth):
+            kids = [rnd.choice(['Hello ', '  Spaced \n out ', 'A'])]
+            for k in range(rnd.choice([0, 0, 1, 2])):
+                kids.append(named(k))
+                kids.append(rnd.choice([' and ', '!', ' ']))
+            kw = {'i18n_translate': rnd.choice(['', '', 'msg-%d' % depth])}
+            if rnd.random() < 0.3:
+                kw['static'] = [['title', rnd.choice(['Tip', ['By ', I('v')]])], ['id', 'k']]
+                kw['i18n_attributes'] = rnd.choice(['title', 'title tip-id'])
+            if rnd.random() < 0.2:
+                kw['i18n_domain'] = 'own'
+            return el('p', *kids, **kw)
+
+        def wrapper(depth):
+            kw = {}
+            for key, vals in (('i18n_domain', ['shop', 'shop', 'blog']), ('i18n_context', ['c1', 'c1', 'c2']),
+                              ('i18n_target', ["'fr'", "'fr'", "'it'", 'default'])):
+                if rnd.random() < 0.5:
+                    kw[key] = rnd.choice(vals)
+            kids = [translated(depth)]
+            if depth < 2 and rnd.random() < 0.6:
+                kids.append(wrapper(depth + 1))
+            kids.append(translated(depth + 10))
+            return el('x', *kids, **kw)
+        body = wrapper(0)
+        if rnd.random() < 0.25:
+            body = el('li', body, indent=2, repeat=['x', py('seq')])
+        out.append(('gen-%d-%d' % (seed, n), doc(body, translated(99)), vars_, {'target_language': rnd.choice(['de', None])}))
+    return out
+
+
 def macro_pairs():
     """(template with METAL, hand-written METAL-free equivalent): a macro body starts from its caller's
     settings, a slot filler keeps those of the place where it was written"""
@@ -116,7 +171,7 @@ def macro_pairs():
 def plan(tier, seed):
     quick = tier == 'quick'
     jobs = []
-    for label, prog, vars_, cfg in programs(tier):
+    for label, prog, vars_, cfg in programs(tier) + generated(60 if quick else 600, seed):
         j = {'prog': prog, 'vars': vars_, 'label': label, 'i18n': True}
         j.update(cfg)
         jobs.append(j)
